@@ -63,6 +63,9 @@ type interpreter struct {
 	funcsSeen map[*ssa.Function]int64 // function -> instructions executed (evidence)
 	depth     int
 	stubSeen  map[string]bool
+	shared     *sharedSet
+	inSync     int
+	curFn      *ssa.Function
 	setupCache map[string]value
 	noSummary  map[*ssa.Function]bool
 	pure      map[*ssa.Function]bool
@@ -719,6 +722,9 @@ func (i *interpreter) callSSA(caller *frame, callpos token.Pos, fn *ssa.Function
 	if fn.TypeParams().Len() > 0 && len(fn.TypeArgs()) == 0 {
 		panic(unsupported("uninstantiated generic function " + fn.String()))
 	}
+	savedFn := i.curFn
+	i.curFn = fn
+	defer func() { i.curFn = savedFn }()
 	i.depth++
 	if i.depth > 400 {
 		panic(boundExceeded("call depth > 400 in " + fn.String()))
